@@ -282,7 +282,7 @@ def paired_ptr_fields(prog, chk, rid):
 # ----------------------------------------------------------------------------- C09.f
 
 def handle_rule_of_three(prog, chk, rid, fams=tuple(FAMILIES)):
-    chk.rule(rid, "class fact: every handle class has user-provided destructor, copy constructor and copy assignment", floor=4)
+    chk.rule(rid, "class fact: every handle class has user-provided destructor, copy constructor and copy assignment", floor=len(fams))
     for fam in fams:
         d = FAMILIES[fam]
         recs = [r for tn, r in prog.records.items() if r["name"] == d["cls"] or (fam == "RefCount::Ptr" and tn.startswith("RefCount::Ptr<"))]
